@@ -100,7 +100,7 @@ Proof.
   - intros st s (_ & H & _). exact H.
   - apply chunked_R_call; assumption.
   - unfold PyInv. cbn. split; [reflexivity|]. split; [|split; [reflexivity|lia]].
-    split; [apply Inv_init|]. split; reflexivity.
+    split; [apply Inv_init|]. split; [reflexivity|]. split; [reflexivity|exact I].
   - exact Hops.
 Qed.
 
